@@ -15,6 +15,7 @@ import (
 	"fmt"
 	"os"
 	"path/filepath"
+	"runtime"
 	"sort"
 	"strings"
 )
@@ -36,6 +37,13 @@ type Prop struct {
 
 var props = map[string]*Prop{}
 
+// children: private sub-commands run in child processes (`verifharness __child <name> args…`),
+// e.g. one write-out under strace with fault injection. The main goroutine stays locked to the
+// main OS thread (see init) so that all its system calls come from one thread in program order.
+var children = map[string]func(args []string) int{}
+
+func init() { runtime.LockOSThread() }
+
 func register(p *Prop) { props[p.ID] = p }
 
 func safeRun(p *Prop, fields []string) (out string) {
@@ -56,6 +64,13 @@ func main() {
 		os.Exit(2)
 	}
 	id := os.Args[1]
+	if id == "__child" {
+		if len(os.Args) < 3 || children[os.Args[2]] == nil {
+			fmt.Fprintln(os.Stderr, "unknown child command")
+			os.Exit(2)
+		}
+		os.Exit(children[os.Args[2]](os.Args[3:]))
+	}
 	p, ok := props[id]
 	if !ok {
 		fmt.Fprintln(os.Stderr, "unknown property", id)
